@@ -179,6 +179,10 @@ def _one_case(rng, k, force=None):
             # the DataFrame's row index (default RangeIndex / a permutation of it as after sort_values or a shuffle / labels
             # outside 0..n-1 / strings / duplicate labels): rows are what matter, never their index labels
             "index": rng.choice([None, None, "perm", "perm", "offset", "str", "dup"]), "index_seed": rng.randint(0, 10**6)}
+    if rng.random() < 0.2:
+        # group columns of categorical dtype whose category order is not alphabetical (age bands, severity levels):
+        # the values are the same strings, so the labelled rows are the same
+        case["categorical"] = rng.randint(1, 10 ** 6)
     return case
 
 
@@ -282,6 +286,14 @@ def run_impl(case):
         finally:
             for c in saved:
                 df[c] = saved[c].values
+    if case.get("categorical"):
+        import random as _random
+        g2_ = _random.Random(case["categorical"])
+        for c in [c for c in df.columns if c.startswith("g")]:
+            cats = sorted(set(df[c]), reverse=True)
+            if len(cats) > 2:
+                g2_.shuffle(cats)
+            df[c] = pd.Categorical(df[c], categories=cats, ordered=g2_.random() < 0.7)
     boot = case["boot"]
     if boot is None:
         bf = SB.showbias(**kwargs)
